@@ -358,6 +358,12 @@ func report(out *propOutcome, verbose bool) int {
 	sort.Strings(funcs)
 	var knownLines []string
 	for _, ob := range failedObs {
+		// A function with a loop the contract has no invariant for (a loop was added, or the ordinals shifted) is
+		// not bound by its contract any more: what fails to prove there is undecided, not refuted (DESIGN 2.9).
+		if vcx := failedVC[ob]; vcx != nil && hasUnboundLoop(vcx) {
+			out.Undecided = append(out.Undecided, fmt.Sprintf("%s: not decided - the function has a loop without an invariant, so its contract no longer binds", ob.Name))
+			continue
+		}
 		if k := isKnown(ob.Name); k != nil {
 			knownLines = append(knownLines, fmt.Sprintf("KNOWN-FINDING: property=%s %s | %s", id, ob.Name, k.Text))
 			continue
@@ -475,6 +481,16 @@ func report(out *propOutcome, verbose bool) int {
 		return 2
 	}
 	return 0
+}
+
+// hasUnboundLoop: the VC generator met a loop for which the contract gives no invariant.
+func hasUnboundLoop(vc *VC) bool {
+	for _, u := range vc.unsupported {
+		if strings.Contains(u, "has no invariant") {
+			return true
+		}
+	}
+	return false
 }
 
 func round3(x float64) float64 { return float64(int(x*1000+0.5)) / 1000 }
